@@ -4,6 +4,8 @@ import Ptn.C10.Lemmas
 import Ptn.C10.Telescoping
 import Ptn.C10.Tree
 import Ptn.C10.Projector
+import Ptn.C10.Value
+import Ptn.C10.ValueRun
 /-! Property theorems for C10 (selection rule of the singular-value truncation).  Only property
 theorems and non-vacuity examples live here; helper lemmas are in `Lemmas.lean`, the
 specification vocabulary (`Desc`, `NonNeg`, `survives`, `Fits`, `capMin`, `renormFactor`) in
@@ -405,5 +407,96 @@ example : ∀ t, t < 2 → ‖(fun n : ℕ => (1 : ℝ) - n) t - (fun n : ℕ =>
     ≤ 1 * Real.sqrt (∑ i ∈ Finset.range 1, (fun _ _ => (1 : ℝ)) t i ^ 2) := by
   intro t _
   simp
+
+/-! ### Value level (`Value.lean`, `ValueRun.lean`): non-vacuity -/
+
+section value_examples
+open Ptn.Ein Ptn.C02
+
+/-- two tensors `A[0,1]`, `B[2,3]` joined by the bond `(1, 2)`; all dimensions 2 -/
+def exA : Asg Nat → Int := fun τ => (τ 0 : Int) + 2 * (τ 1 : Int) + 1
+def exB : Asg Nat → Int := fun τ => 3 * (τ 2 : Int) - (τ 3 : Int) + 1
+/-- the swap matrix on the legs `(4, 5)` / `(6, 7)`: a complete basis that is NOT the identity matrix -/
+def vxP : Asg Nat → Int := fun τ => if τ 4 + τ 5 = 1 then 1 else 0
+def vxPc : Asg Nat → Int := fun τ => if τ 6 + τ 7 = 1 then 1 else 0
+/-- a truncating pair: only the basis vector `0` is kept (legs `5`, `6` have dimension 1) -/
+def exQ : Asg Nat → Int := fun τ => if τ 4 = 0 ∧ τ 5 = 0 then 1 else 0
+def exQc : Asg Nat → Int := fun τ => if τ 6 = 0 ∧ τ 7 = 0 then 1 else 0
+
+theorem exLeaves_dep : ∀ f ∈ [exA, exB], DependsOn (· ∈ [0, 1, 2, 3]) f := by
+  intro f hf σ τ h
+  simp only [List.mem_cons, List.not_mem_nil, or_false] at hf
+  rcases hf with rfl | rfl
+  · simp only [exA, h 0 (by simp), h 1 (by simp)]
+  · simp only [exB, h 2 (by simp), h 3 (by simp)]
+
+-- `projector_identity_value`: every hypothesis holds for the swap pair (complete, not the identity matrix)
+example (σ : Asg Nat) :
+    netValue (fun _ => 2) ([] ++ [(1, 4), (5, 6), (7, 2)]) (vxP :: vxPc :: [exA, exB]) σ =
+      netValue (fun _ => 2) ([] ++ [(1, 2)]) [exA, exB] σ :=
+  projector_identity_value (fun _ => 2) [] vxP vxPc [exA, exB] 1 2 4 7 5 6 exLeaves_dep
+    (by simp) (by simp) (by simp) (by simp) (by decide) rfl
+    (by
+      intro τ h4 h7
+      have e4 : τ 4 = 0 ∨ τ 4 = 1 := by omega
+      have e7 : τ 7 = 0 ∨ τ 7 = 1 := by omega
+      rcases e4 with e4 | e4 <;> rcases e7 with e7 | e7 <;>
+        simp [sumPairs, sumR, vxP, vxPc, upd, e4, e7, List.range_succ])
+    σ
+
+-- `projector_linear_value`: hypotheses hold for the truncating pair; and there the value DOES change
+example (σ : Asg Nat) :
+    netValue (fun l => if l = 5 ∨ l = 6 then 1 else 2) ([] ++ [(1, 2)]) [exA, exB] σ
+        - netValue (fun l => if l = 5 ∨ l = 6 then 1 else 2) ([] ++ [(1, 4), (5, 6), (7, 2)])
+            (exQ :: exQc :: [exA, exB]) σ =
+      netValue (fun l => if l = 5 ∨ l = 6 then 1 else 2) ([] ++ [(1, 4), (7, 2)])
+        ((fun τ => deltaT 4 7 τ - projMat (fun l => if l = 5 ∨ l = 6 then 1 else 2) exQ exQc 5 6 τ) ::
+          [exA, exB]) σ :=
+  projector_linear_value _ [] exQ exQc [exA, exB] 1 2 4 7 5 6 exLeaves_dep
+    (by simp) (by simp) (by simp) (by simp) (by decide) rfl σ
+
+example :
+    netValue (fun l => if l = 5 ∨ l = 6 then 1 else 2) ([] ++ [(1, 2)]) [exA, exB] (fun _ => 0) = 13 ∧
+    netValue (fun l => if l = 5 ∨ l = 6 then 1 else 2) ([] ++ [(1, 4), (5, 6), (7, 2)])
+      (exQ :: exQc :: [exA, exB]) (fun _ => 0) = 1 := by
+  constructor <;> decide +kernel
+
+/-- a chain `A[0,1] — M[2,3,8] — B'[9,10]` with the bonds `(1, 2)` and `(8, 9)`, and one rank-one insertion on
+each bond -/
+def exM : Asg Nat → Int := fun τ => (τ 2 : Int) + (τ 3 : Int) * (τ 8 : Int) + 1
+def exB' : Asg Nat → Int := fun τ => 2 * (τ 9 : Int) - (τ 10 : Int)
+def exIns1 : Ins Nat Int := ⟨1, 2, 4, 7, fun τ => if τ 4 = 0 ∧ τ 7 = 0 then 1 else 0⟩
+def exIns2 : Ins Nat Int := ⟨8, 9, 11, 12, fun τ => if τ 11 = 1 ∧ τ 12 = 1 then 1 else 0⟩
+
+-- `recursive_truncation_value_telescope`: every hypothesis holds for the two insertions on the chain
+example (σ : Asg Nat) :
+    netValue (fun _ => 2) ([] ++ [exIns1, exIns2].map Ins.plain) [exA, exM, exB'] σ
+        - netValue (fun _ => 2) ([] ++ [exIns1, exIns2].flatMap Ins.cut)
+            ([exIns1, exIns2].map Ins.Pm ++ [exA, exM, exB']) σ =
+      teleSum (fun _ => 2) [] [exA, exM, exB'] [] [exIns1, exIns2] σ :=
+  recursive_truncation_value_telescope (fun _ => 2) [] [exA, exM, exB'] [exIns1, exIns2]
+    (S := (· ∈ [0, 1, 2, 3, 8, 9, 10]))
+    (by
+      intro f hf σ τ h
+      simp only [List.mem_cons, List.not_mem_nil, or_false] at hf
+      rcases hf with rfl | rfl | rfl
+      · simp only [exA, h 0 (by simp), h 1 (by simp)]
+      · simp only [exM, h 2 (by simp), h 3 (by simp), h 8 (by simp)]
+      · simp only [exB', h 9 (by simp), h 10 (by simp)])
+    (by intro i hi; simp at hi; rcases hi with rfl | rfl <;> simp [exIns1, exIns2])
+    (by
+      intro i hi σ τ h
+      simp only [List.mem_cons, List.not_mem_nil, or_false] at hi
+      rcases hi with rfl | rfl
+      · simp only [exIns1] at h ⊢; rw [h 4 (Or.inl rfl), h 7 (Or.inr rfl)]
+      · simp only [exIns2] at h ⊢; rw [h 11 (Or.inl rfl), h 12 (Or.inr rfl)])
+    (by decide) (by intro i _; rfl) σ
+
+-- the order of the insertions on the structural model: children of the root first, then the recursion
+example : ∃ t, TRun TTN.empty buildOps t ∧
+    truncOrder t.S (t.nodes.length + 1) 1 = [(1, 2), (1, 3), (2, 4)] :=
+  ⟨_, .cons ⟨rfl, rfl⟩ rfl (.cons trivial rfl (.cons trivial rfl (.cons trivial rfl (.nil _)))), rfl⟩
+
+end value_examples
 
 end Ptn.C10
